@@ -126,6 +126,25 @@ def cacheSet (key : String) (args : List Obj) (res : Obj) (output : Bytes) : M U
   let others := st.cache.filter (fun c => !(c.key == key && keyEqList c.args args))
   set { st with cache := { key := key, args := args, result := res, output := output } :: others }
 
+/-- the parameter binding loop of `extendFunctionEnv`: `some e` = stop with this error -/
+def bindParams (nenv : Nat) : List (String × Obj) → M (Option Obj)
+  | [] => pure none
+  | (p, a) :: rest => do
+    let pval ← valueOf a
+    let oerr ← createOrSet nenv p pval true
+    if oerr.isError then pure (some oerr) else bindParams nenv rest
+
+/-- the split of the arguments of a variadic call: (named parameters, their arguments, extra) -/
+def splitArgs (f : FuncVal) (args : List Obj) : List String × List Obj × List Obj :=
+  if f.variadic then
+    let n := f.params.length - 1
+    let params := f.params.take n
+    let args := match args.getLast? with
+      | some (.array els) => args.dropLast ++ els
+      | _ => args
+    if args.length ≥ n then (params, args.take n, args.drop n) else (params, args, [])
+  else (f.params, args, [])
+
 /-- `extendFunctionEnv` (NoReg path) together with `NewFunctionEnvironment` -/
 def extendFunctionEnv (f : FuncVal) (args : List Obj) : M (Except Obj Nat) := do
   let cur ← curEnv
@@ -134,23 +153,29 @@ def extendFunctionEnv (f : FuncVal) (args : List Obj) : M (Except Obj Nat) := do
   let parent := if same then cur else f.env
   let pf ← getFrame parent
   let nenv ← newFrame { outer := some parent, cacheKey := f.key, depth := pf.depth + 1, function := some f }
-  let (params, args, extra) :=
-    if f.variadic then
-      let n := f.params.length - 1
-      let params := f.params.take n
-      let args := match args.getLast? with
-        | some (.array els) => args.dropLast ++ els
-        | _ => args
-      if args.length ≥ n then (params, args.take n, args.drop n) else (params, args, [])
-    else (f.params, args, [])
+  let (params, args, extra) := splitArgs f args
   if args.length != params.length then return .error (err "wrong number of arguments")
-  for (p, a) in params.zip args do
-    let pval ← valueOf a
-    let oerr ← createOrSet nenv p pval true
-    if oerr.isError then return .error oerr
+  match ← bindParams nenv (params.zip args) with
+  | some oerr => return .error oerr
+  | none => pure ()
   if f.variadic then
     let _ ← setNoChecks nenv ".." (newArray extra) true
   pure (.ok nenv)
+
+/-- the end of `applyFunction`, after the body was evaluated and the caller's environment and
+writer were restored: replay the captured output, then decide on caching (`before`/`after` = the
+callee frame's miss counter around the body) -/
+def finishCall (f : FuncVal) (args : List Obj) (curState before after : Nat) (cantCache : Bool)
+    (res : Obj) (output : Bytes) : M Obj := do
+  if !output.isEmpty then writeOut output
+  if after != before then
+    -- the callee depends on outer state (or called a non cacheable extension): so does its caller
+    let _ := cantCache
+    triggerNoCache curState
+    return res
+  if res.isError then return res
+  cacheSet f.key args res output
+  pure res
 
 def isArrayObj : Obj → Option (List Obj)
   | .array els => some els
@@ -545,19 +570,13 @@ def applyFunction : Nat → Obj → List Obj → M Obj
         let res ← eval fuel f.body
         let fr ← getFrame nenv
         let after := fr.getMiss
+        let cantCache := fr.cantCache
         let st ← get
         let (output, outs) := match st.outs with
           | o :: rest => (chunksBytes o, rest)
           | [] => ([], [])
         set { st with cur := curState, outs := outs }
-        if !output.isEmpty then writeOut output
-        if after != before then
-          -- the callee depends on outer state (or called a non cacheable extension): so does its caller
-          triggerNoCache curState
-          return res
-        if res.isError then return res
-        cacheSet f.key args res output
-        pure res
+        finishCall f args curState before after cantCache res output
     | _ => pure (err "not a function")
 
 end
